@@ -417,6 +417,13 @@ func c19Strata() []*gast.Grammar {
 		// overlapping classes and literals side by side: merged and de-duplicated by the optimizer
 		mk(r("S", gast.Plus(gast.C(gast.Cl(gast.Chars("abcde")), gast.Cl(gast.Chars("cdefg")), gast.L("_"), gast.L("a"),
 			gast.Cl(&gast.ClassSpec{UClasses: []string{"L", "Nd"}}), gast.Cl(&gast.ClassSpec{UClasses: []string{"Nd", "Mn", "Pc", "L"}}))))),
+		// several separate groups of mutually left-recursive rules (each needs a leader of its own),
+		// plus a dead rule that uses several otherwise unused rules
+		mk(r("S", gast.S(gast.Ref("Expr"), gast.L(";"), gast.Ref("Path"), gast.L(";"), gast.Ref("Qual"))),
+			r("Expr", gast.C(gast.S(gast.Ref("Term"), gast.L("+")), gast.L("n"))), r("Term", gast.C(gast.S(gast.Ref("Expr"), gast.L("*")), gast.L("m"))),
+			r("Path", gast.C(gast.S(gast.Ref("Step"), gast.L("/")), gast.L("p"))), r("Step", gast.C(gast.S(gast.Ref("Path"), gast.L(".")), gast.L("s"))),
+			r("Qual", gast.C(gast.S(gast.Ref("Name"), gast.L(":")), gast.L("q"))), r("Name", gast.C(gast.S(gast.Ref("Ident"), gast.L("'")), gast.L("i"))), r("Ident", gast.C(gast.S(gast.Ref("Qual"), gast.L("!")), gast.L("j"))),
+			r("Dead", gast.S(gast.Ref("LegacyHead"), gast.Ref("LegacyBody"), gast.Ref("LegacyTail"))), r("LegacyHead", gast.L("h")), r("LegacyBody", gast.S(gast.L("b"), gast.Ref("LegacyTail"))), r("LegacyTail", gast.L("t"))),
 		// nullable computation depends on the visit order of mutually recursive rules
 		mk(r("Q", gast.C(gast.S(gast.Ref("R"), gast.L("q")), gast.L(""))), r("R", gast.S(gast.Ref("Q"), gast.Ref("T"), gast.L("r"))), r("T", gast.C(gast.S(gast.Ref("R"), gast.L("y")), gast.L("t")))),
 		mk(r("A", gast.C(gast.S(gast.Ref("B"), gast.L("a")), gast.L(""))), r("B", gast.C(gast.S(gast.Ref("C"), gast.Opt(gast.L("b"))), gast.Ref("A"))), r("C", gast.C(gast.S(gast.Ref("A"), gast.Ref("B"), gast.L("c")), gast.L("x"))), r("D", gast.S(gast.Ref("A"), gast.Ref("C")))),
